@@ -158,7 +158,7 @@ PROPS = {
     },
     "C08": {
         "engine": "queue",
-        "level_text": 'Lean 4 theorems C08.exactly_once_in_order / per_producer_order / worker_alive_while_handle_alive / worker_makes_progress / quiescent_schedule_is_a_run / quiescent_schedule_settles / predicate_accepts_every_model_history / predicate_accepts_every_closed_model_history: an inductive invariant of the queuing-sink LTS over all interleavings of producers, clones, drops, worker steps and wrapped-sink outcomes; liveness as progress + bounded worker runs; the executable per-operation predicates (Check/Queue.lean) are proved to accept every history as the model runs it (no alarm can be an artefact of a predicate).',
+        "level_text": 'Lean 4 theorems C08.exactly_once_in_order / per_producer_order / worker_alive_while_handle_alive / worker_makes_progress / quiescent_schedule_is_a_run / quiescent_schedule_settles / predicate_accepts_every_model_history / predicate_accepts_every_closed_model_history; for capacity 0 (rendezvous model Queue0) rendezvous_fifo_exactly_once / rendezvous_in_hand_is_delivered / rendezvous_model_run_is_lts_run: an inductive invariant of the queuing-sink LTS over all interleavings of producers, clones, drops, worker steps and wrapped-sink outcomes; liveness as progress + bounded worker runs; the executable per-operation predicates (Check/Queue.lean) are proved to accept every history as the model runs it (no alarm can be an artefact of a predicate).',
         "level_note": _Q_NOTE,
         "technique": 'Lean 4 proof (inductive invariant of a labelled transition system over all schedules; progress + termination measure) + sequentialised correspondence + stress',
         "trusted_base": _Q_TB,
@@ -178,7 +178,7 @@ PROPS = {
     },
     "C10": {
         "engine": "queue",
-        "level_text": "Lean 4 theorems C10.emit_depends_only_on_room / capacity_never_exceeded / unbounded_accepts_all / callers_never_run_the_sink. PARTIAL for 'promptly': non-blocking is a theorem of the model and of crossbeam's try_send contract; wall-clock latency is observed (2 s watchdog).",
+        "level_text": "Lean 4 theorems C10.emit_depends_only_on_room / capacity_never_exceeded / unbounded_accepts_all / callers_never_run_the_sink; capacity 0: C10.rendezvous_emit_never_waits (accepted exactly when the worker waits, model Queue0). PARTIAL for 'promptly': non-blocking is a theorem of the model and of crossbeam's try_send contract; wall-clock latency is observed (2 s watchdog).",
         "level_note": _Q_NOTE + '; wall-clock promptness is a runtime observation',
         "technique": 'Lean 4 proof (emit result is a function of queue room; capacity invariant; actor separation) + gate-closed correspondence',
         "trusted_base": _Q_TB,
@@ -198,7 +198,7 @@ PROPS = {
     },
     "C15": {
         "engine": "queue",
-        "level_text": 'Lean 4 theorems C15.counters_track_history / refused_not_counted / quiescent_values / queued_never_wraps; try_send/count and recv/count are separate labels so the overtaking window is in the model.',
+        "level_text": 'Lean 4 theorems C15.counters_track_history / refused_not_counted / quiescent_values / queued_never_wraps; try_send/count and recv/count are separate labels so the overtaking window is in the model. Capacity 0: C15.rendezvous_counters over the rendezvous model Queue0 (submitted counted with the try_send there: the window is not in that model).',
         "level_note": _Q_NOTE,
         "technique": 'Lean 4 proof (counter invariants over all interleavings; saturating difference bounds) + counter-read correspondence and concurrent sampling',
         "trusted_base": _Q_TB,
